@@ -233,6 +233,29 @@ for _op in ("__mul__", "__rmul__", "__truediv__", "__rtruediv__", "__add__", "__
     setattr(_Arr, _op, _arr_op(_op))
 
 
+def real_decider(assume):
+    """decide callback for Sym: tests built from np.all/np.any(np.isreal(<name>)) with not/and/or are evaluated
+    under `assume` (name -> is real); any other test is left to the evaluator"""
+    def evalb(n):
+        if isinstance(n, ast.BoolOp):
+            vals = [evalb(v) for v in n.values]
+            return all(vals) if isinstance(n.op, ast.And) else any(vals)
+        if isinstance(n, ast.UnaryOp) and isinstance(n.op, ast.Not):
+            return not evalb(n.operand)
+        if isinstance(n, ast.Call) and (dotted(n.func) or "").split(".")[-1] in ("all", "any", "isreal", "isrealobj") and len(n.args) == 1:
+            if (dotted(n.func) or "").split(".")[-1] in ("isreal", "isrealobj"):
+                return assume[norm(n.args[0])]
+            return evalb(n.args[0])
+        raise KeyError(norm(n))
+
+    def dec(text):
+        try:
+            return bool(evalb(ast.parse(str(text), mode="eval").body))
+        except (KeyError, SyntaxError):
+            return None
+    return dec
+
+
 def rule_snell(ctx):
     ctx.rule("C08.snell", "T5+T1", "real branch of snell: n2 sin(theta2) = n1 sin(theta1), degrees in and out; fresnel at normal "
              "incidence and at the Brewster angle")
@@ -245,7 +268,7 @@ def rule_snell(ctx):
         if "isreal" in text:
             return True
         return None
-    ev = Sym(ctx.repo, decide=lambda t: (False if t.startswith("not ") and "isreal(theta2)" in t else (True if "isreal" in t else None)))
+    ev = Sym(ctx.repo, decide=real_decider({"n1": True, "n2": True, "theta2": True}))
     t2 = ev.call(EM, "snell", n1, n2, th)
     lhs = n2 * sp.sin(t2 * sp.pi / 180)
     rhs = n1 * sp.sin(th * sp.pi / 180)
@@ -272,7 +295,7 @@ def rule_snell(ctx):
 
 def rule_fresnel(ctx):
     n1, n2 = sp.symbols("n1 n2", positive=True)
-    dec = lambda t: (False if t.startswith("not ") and "isreal(theta2)" in t else (True if "isreal" in t else None))
+    dec = real_decider({"n1": True, "n2": True, "theta2": True})
     ev = Sym(ctx.repo, decide=dec)
     f = ctx.func(EM, "fresnel")
     ctx.rule("C08.fresnel0", "T5", "|Rv| = |Rh| at normal incidence")
@@ -319,14 +342,7 @@ def rule_snell_complex(ctx):
     n2 = n1 * sp.sqrt(s ** 2 + d)
     TH = sp.Symbol("theta1", positive=True)
 
-    def dec(t):
-        if t.startswith("not ") and "isreal(theta2)" in t:
-            return False
-        if "isreal(n1)" in t and "isreal(n2)" in t:
-            return False         # take the complex-n2 branch
-        if "isreal(n1)" in t:
-            return True
-        return None
+    dec = real_decider({"n1": True, "n2": False, "theta2": True})      # take the complex-n2 branch
     hooks = {"sin": lambda u: s if u == TH * sp.pi / 180 else sp.sin(u), "arcsin": lambda u: sp.Function("ASIN")(u), "real": lambda u: u, "imag": lambda u: sp.Integer(0)}
     ev = Sym(ctx.repo, decide=dec, hooks=hooks)
     t2 = ev.call(EM, "snell", n1, n2, TH)
